@@ -1434,6 +1434,10 @@ class Planner:
             if others:
                 self.call("sim.ops.signature_in_context", self.ref(f), self.ref(r.choice(others)), keep_failed=kf, kind="result")
             return None
+        if k == 6 and r.random() < 0.35:
+            # read-only accessors of a form (each fills some lazy cache)
+            self.emit(["meth", self.new(), self.ref(f), r.choice(["coefficient_numbering", "constant_numbering", "terminal_numbering", "domain_numbering", "subdomain_data", "ufl_domains", "ufl_domain", "constants", "geometric_dimension", "max_subdomain_ids", "base_form_operators", "empty", "ufl_cell", "integrals"]), []], keep_failed=True)
+            return None
         if k == 6:
             self.emit(["obs", None, r.choice(["sig", "hash", "args", "coeffs", "consts", "meta", "repr", "str", "rank"]), f])
             return None
